@@ -741,7 +741,12 @@ func (ev *Evaluator) instr(fr *frame, ins ssa.Instruction, st *State) {
 				fr.env[x] = Not(t)
 			}
 		case token.ARROW:
-			fr.env[x] = symVal("recv("+valKey(v)+")", x.Type())
+			if x.CommaOk {
+				tt := x.Type().(*types.Tuple)
+				fr.env[x] = &Tuple{Elems: []Val{symVal("recv("+valKey(v)+")", tt.At(0).Type()), A("recvok(" + valKey(v) + ")")}}
+			} else {
+				fr.env[x] = symVal("recv("+valKey(v)+")", x.Type())
+			}
 		default:
 			fr.env[x] = symVal("?unop", x.Type())
 		}
@@ -1029,8 +1034,13 @@ func valTerm(v Val) *Term {
 	case *Tuple:
 		// (pointer, pointee) snapshot of an opaque call argument
 		if len(x.Elems) == 2 {
-			if _, ok := x.Elems[0].(*Ptr); ok {
-				return A(valKey(x.Elems[0]))
+			switch f := x.Elems[0].(type) {
+			case *Ptr:
+				return A(valKey(f))
+			case *Sym:
+				return A(f.Path)
+			case *Iface:
+				return valTerm(&Tuple{Elems: []Val{f.Dyn, x.Elems[1]}})
 			}
 		}
 	}
@@ -1058,7 +1068,32 @@ func (ev *Evaluator) callFn(fn *ssa.Function, args []Val, free []Val, st *State,
 	}
 	// snapshot pointees for event
 	var snap []Val
+	symPointee := func(v Val) (Val, bool) {
+		s, ok := v.(*Sym)
+		if !ok || s.T == nil {
+			return nil, false
+		}
+		if _, isPtr := s.T.Underlying().(*types.Pointer); !isPtr {
+			return nil, false
+		}
+		if o, ok := ev.symObjs[s.Path]; ok {
+			if pv, ok := st.mem[o]; ok {
+				return pv, true
+			}
+		}
+		return nil, false
+	}
 	for _, a := range args {
+		if pv, ok := symPointee(a); ok {
+			snap = append(snap, &Tuple{Elems: []Val{a, pv}})
+			continue
+		}
+		if i, ok := a.(*Iface); ok {
+			if pv, ok := symPointee(i.Dyn); ok {
+				snap = append(snap, &Tuple{Elems: []Val{a, pv}})
+				continue
+			}
+		}
 		if p, ok := a.(*Ptr); ok && p.Obj != nil {
 			snap = append(snap, &Tuple{Elems: []Val{a, ev.load(*st, p, nil)}})
 		} else if i, ok := a.(*Iface); ok {
